@@ -17,7 +17,7 @@ RULE = ('(a) DirectionMonitor on every depth-0 public UTPM call with P>1 while t
         'against the P=1 run on direction p alone (1e-11 x cumulative scale); class = (call or program, P, shapes); non-trivial = '
         'the directions have different zeroth coefficients')
 ASSUMPTIONS = ['the same operation on the single-direction polynomial is the reference', 'rounding of vectorised kernels: 1e-11 relative to the cumulative magnitude']
-REQUIRED = ['direction-shadow', 'structure:lu', 'structure:det', 'structure:eigh', 'structure:qr', 'structure:branches', 'program:forward', 'program:reverse']
+REQUIRED = ['direction-shadow', 'structure:lu', 'structure:det', 'structure:eigh', 'structure:qr', 'structure:branches', 'structure:inplace', 'program:forward', 'program:reverse']
 
 _mon = None
 
@@ -43,18 +43,18 @@ def cases(tier, seed):
         out.insert(0, pool.ambient_case(PID))
     if tier == 'thorough':
         out.insert(0, pool.ambient_docs_case(PID))
-    reps = 2 if tier == 'quick' else 12
+    reps = 2 if tier == 'quick' else 40
     for rep in range(reps):
         for D in (1, 2, 4):
             for P in (2, 3):
-                for k in ('lu', 'det', 'eigh', 'qr', 'branches'):
+                for k in ('lu', 'det', 'eigh', 'qr', 'branches', 'inplace'):
                     out.append({'kind': 'structure', 'seed': case_seed('C11', seed, k, D, P, rep), 'params': {'what': k, 'D': D, 'P': P}})
     for prog in progs.cat():
         if 'fancy' in prog.tags:
             continue
         for rep in range(1 if tier == 'quick' else 3):
             out.append({'kind': 'program', 'seed': case_seed('C11', seed, prog.name, rep), 'params': {'prog': prog.name, 'P': 2 + rep % 2, 'D': [2, 1, 3][rep % 3]}})
-    for i in range(80 if tier == 'quick' else 1500):
+    for i in range(80 if tier == 'quick' else 6000):
         out.append({'kind': 'program', 'seed': case_seed('C11', seed, 'comp', i), 'params': {'prog': 'comp', 'P': 2 + i % 2, 'D': 1 + i % 3}})
     return out
 
@@ -99,6 +99,16 @@ def _structure(ctx, p, rng):
                 algopy.qr(UTPM(a))
             except Exception:
                 ctx.skip('unsupported:qr-rank-deficient')
+    elif what == 'inplace':
+        # in-place operators whose right operand has lower rank, with the direction count equal to an element axis (P == N)
+        for shape in ((P,), (P, P), (2, P)):
+            for nm in ('__iadd__', '__isub__', '__imul__', '__itruediv__'):
+                y = UTPM(gen.series_data(rng, D, P, shape, 'nz', 'random', False, 0.5))
+                s_ = UTPM(gen.series_data(rng, D, P, shape[1:], 'nz', 'random', False, 0.5))
+                try:
+                    getattr(y, nm)(s_)
+                except Exception:
+                    ctx.skip('sut-raises:inplace')
     else:
         a = gen.series_data(rng, D, P, (4,), 'nz', 'random', False, 0.5)      # signs differ between directions and elements
         b = gen.series_data(rng, D, P, (4,), 'nz', 'random', False, 0.5)
